@@ -409,6 +409,12 @@ func init() {
 
 func runC05(r *mc.Report, e *Env) {
 	r.Rule = "(a) BFS: every transition is one real Put on a fresh pebble-backed store reached by replaying its history; after it the database is scanned and the capacity / usage / farthest-first clauses are evaluated; (b) every interleaving (bounded preemptions) of concurrent Puts at injected yield points, clauses evaluated at quiescence; distinct = distinct canonical store states / final outcomes"
+	if freeRuns > 0 { // race-detector pass: only the concurrent scenarios, in this process
+		for t := 0; t < c05bTasks(e.Thorough()); t += c05bShards {
+			runC05b(r, e, t)
+		}
+		return
+	}
 	if nb := len(c05Tasks(e.Thorough())); e.Of <= 1 || e.Shard < nb {
 		c05BFS(r, e, r, nil)
 	} else {
